@@ -16,6 +16,7 @@
     Output: 77, number of subscribers, then per subscriber
               mirror : 1, error (0 none, 1 MaxSizeExceeded, 2 InvalidIndex, 3 Closed, 4 Lagged, 5 remote),
                        contents (kind specific), and complete, done when there is no error
+                       (map/set after MaxSizeExceeded: only the number of entries)
               by hand: 0, error, number of events returned, the events
     Malformed input: [98]. *)
 From Remoc Require Import Lib.Base Rch.Broadcast Robs.SeqCommon Robs.Mirror Robs.MirrorInst.
@@ -58,6 +59,9 @@ Section Big.
   Variable enc_ev : iE I -> list N.
   Variable enc_m : iM I -> list N.          (* contents *)
   Variable m_flags : iM I -> list N.        (* complete, done *)
+  (** hash map/set: which entry of an incremental initial value exceeds max_size depends on the hash
+      order; only the number of entries is compared then *)
+  Variable hash_order : bool.
 
   Definition try_step (s : mstate I) (a : action I) : mstate I :=
     match step I s a with Some s' => s' | None => s end.
@@ -115,10 +119,17 @@ Section Big.
 
   Definition print_sub (r : rsub I) : list N :=
     if r_mirror r then
-      [1; err_num r] ++ enc_m (r_m r) ++ (match r_err r with None => m_flags (r_m r) | Some _ => [] end)
+      [1; err_num r] ++
+      (match r_err r with
+       | None => enc_m (r_m r) ++ m_flags (r_m r)
+       | Some CMaxSize => if hash_order then [hd 0 (enc_m (r_m r))] else enc_m (r_m r)
+       | Some _ => enc_m (r_m r)
+       end)
     else
       let evs := evs_of I (r_log r) in
-      [0; err_num r; len evs] ++ flat_map enc_ev evs.
+      [0; err_num r; len evs] ++
+      (* hash map/set: which entries of an unfinished initial value have arrived depends on the hash order *)
+      (if hash_order && negb (is_nil (r_init r)) then [] else flat_map enc_ev evs).
 
   Definition run_kind (c0 : iC I) (steps : list bstep_in) : list N :=
     match bigs steps (init_state I c0) with
@@ -206,9 +217,11 @@ Definition lbig (st : lstate * list (nat * N)) (b : bstep_in) : option (lstate *
   let fin s ms := let s' := lsettle (list_fuel s) (map fst ms) s in Some (s', ms) in
   match b with
   | BBurst xs => match list_ops (S (length xs)) xs with Some acts => fin (ltrys acts s) ms | None => None end
-  | BSub m _ _ mx =>
-      let s' := ltry s LSubscribe in
-      fin s' (if m then ms ++ [(length (lsubs s), mx)] else ms)
+  | BSub m _ _ mx =>   (* through the list object only (the harness has no distributor) *)
+      if palive s then
+        let s' := ltry s LSubscribe in
+        fin s' (if m then ms ++ [(length (lsubs s), mx)] else ms)
+      else fin s ms
   | BRecv k n =>
       let one s := ltry (lsettle (list_fuel s) (map fst ms) s) (SRecv (N.to_nat k)) in
       fin (fold_left (fun s _ => one s) (repeat tt (N.to_nat n)) s) ms
@@ -253,13 +266,13 @@ Definition run_robs_lag (inp : list N) : list N :=
           | None => [98]
           | Some steps =>
               match kind with
-              | 0 => run_kind VecI.iface (fun l => RunRobsVec.decode_ops (length l) l) RunRobsVec.enc_event vec_m vec_flags
+              | 0 => run_kind VecI.iface (fun l => RunRobsVec.decode_ops (length l) l) RunRobsVec.enc_event vec_m vec_flags false
                               {| Vec.items := init; Vec.cdone := false |} steps
-              | 1 => run_kind DequeI.iface (fun l => RunRobsDeque.decode_ops (length l) l) RunRobsDeque.enc_event deque_m deque_flags
+              | 1 => run_kind DequeI.iface (fun l => RunRobsDeque.decode_ops (length l) l) RunRobsDeque.enc_event deque_m deque_flags false
                               {| VecDeque.items := init; VecDeque.cdone := false |} steps
-              | 2 => run_kind MapI.iface (fun l => map_ops (S (length l)) l) RunRobsMap.enc_event map_m map_flags
+              | 2 => run_kind MapI.iface (fun l => map_ops (S (length l)) l) RunRobsMap.enc_event map_m map_flags true
                               (HashMap.obs_of (pairs_of init)) steps
-              | 3 => run_kind SetI.iface (fun l => set_ops (S (length l)) l) RunRobsSet.enc_event set_m set_flags
+              | 3 => run_kind SetI.iface (fun l => set_ops (S (length l)) l) RunRobsSet.enc_event set_m set_flags true
                               (HashSet.obs_of init) steps
               | 4 => match lbigs steps (linit init, []) with
                      | Some (s, ms) => [77; len (lsubs s)] ++ lprints ms 0 (lsubs s)
